@@ -14,6 +14,9 @@ import (
 	"golang.org/x/tools/go/ssa"
 )
 
+// BMC work can be sharded over processes: this process handles configurations with index%shardM == shardR
+var shardR, shardM = 0, 1
+
 type initLoc struct {
 	Shape  *Shape
 	Leaves []*Term
@@ -198,7 +201,7 @@ func (r *l2Run) collect() {
 				case *StructVal, *ArrayVal:
 					continue
 				}
-				sh, leaves := e.flattenInit(c.V)
+				sh, leaves := e.flattenInit(ev.setupSnap[id])
 				r.reg.addShape(loc, sh)
 				cfg.Init[loc] = initLoc{sh, leaves}
 			}
@@ -291,6 +294,8 @@ type L2Result struct {
 	BMCSolverS float64               `json:"bmc_solver_s"`
 	BMCQueries int                   `json:"bmc_queries"`
 	Fallbacks  []string              `json:"fallback_solver_answers"`
+	ConfigKeys []string              `json:"config_keys"`
+	Witnesses  []string              `json:"witnesses"`
 	Registry   []string              `json:"registry_summary"`
 	CfgInfo    []string              `json:"configs_info"`
 }
@@ -385,7 +390,11 @@ func runL2Harness(prog *ssa.Program, pkg *ssa.Package, name, mode, solverName st
 		keys = append(keys, k)
 	}
 	sort.Strings(keys)
-	for _, k := range keys {
+	res.ConfigKeys = keys
+	for ki, k := range keys {
+		if shardM > 1 && ki%shardM != shardR {
+			continue
+		}
 		cfg := run.configs[k]
 		b := newBMC(e, run.reg, cfg, name)
 		b.run(&res)
